@@ -229,5 +229,7 @@ def nontrivial(case, result):
 
 
 def prebuild(root):
-    """translator: regenerate coq/Generated/ParseGen.v (radix_base_half is tied to the model in Proofs/ParseGenTieHalf.v)"""
-    return run_translator(root, "rs2v_parse.py", "C11")
+    """translators: regenerate coq/Generated/ParseGen.v (radix_base_half is tied to the model in Proofs/ParseGenTieHalf.v) and
+    coq/Generated/PrintGen.v (the radix output code; tied to Model/RadixOut.v in Proofs/PrintGenTie*.v,
+    theorem C11_print_rs_matches_model)"""
+    return run_translator(root, "rs2v_parse.py", "C11") or run_translator(root, "rs2v_print.py", "C11")
